@@ -99,6 +99,7 @@ func runC17(p *core.Prog, r *core.Result) {
 		"R17.3 '*' -> [^/]*, '**' -> .* (consuming both stars), '?' -> one character, '\\\\x' -> literal x for x in \\\\ * ? [ ] and an error otherwise or at end of pattern",
 		"R17.4 the emission skeleton for 1, 2 and 3 patterns parses to begin-text · (alternation of the per-pattern groups) · end-text: every alternative is anchored at both ends",
 		"R17.5 callers match whole paths with MatchString only",
+		"R17.6 the compiled set is a function of the given pattern list alone (no package-level state, every successful return is the compilation of this call's pattern)",
 	}
 	r.NotDecided = []string{"Go's regexp engine implements the parsed expression (trusted)", "'.' does not match newline in Go's default mode: paths are assumed to contain no newline", "the undocumented [...] character-class pass-through"}
 	r.Assumptions = append(r.Assumptions, "paths contain no newline byte (regexp '.' excludes it)")
@@ -600,6 +601,48 @@ func runC17(p *core.Prog, r *core.Result) {
 		if len(byK[k]) == 0 {
 			r.Bad("R17.3", fmt.Sprintf("util.CompileGlobs#case:%q", string(rune(k))), pos, "no translation for %q", string(rune(k)))
 		}
+	}
+
+	// ---- R17.6 the result is a function of this call's patterns only
+	okPure := true
+	for _, ret := range core.ReturnsOf(fn) {
+		vals := core.RetVals(ret)
+		if len(vals) != 2 {
+			continue
+		}
+		if core.IsNilConst(vals[0]) {
+			continue // error return
+		}
+		fromCompile := false
+		if e, ok := vals[0].(*ssa.Extract); ok && e.Index == 0 {
+			if c, ok := e.Tuple.(*ssa.Call); ok && (core.IsCallTo(c, "regexp", "Compile") || core.IsCallTo(c, "regexp", "MustCompile")) {
+				if sc, ok := c.Call.Args[0].(*ssa.Call); ok && core.IsMethod(sc, "strings", "Builder", "String") && sc.Call.Args[0] == builder {
+					fromCompile = true
+				}
+			}
+		}
+		if !fromCompile {
+			okPure = false
+			r.Bad("R17.6", "util.CompileGlobs#result-source", p.InstrPos(ret), "a successful return yields a regexp that is not the compilation of the pattern built from this call's globs (cached or shared state): another pattern list can be answered with it")
+		}
+	}
+	var globalsRead []string
+	for _, f := range core.WithAnons(fn) {
+		core.Instrs(f, func(in ssa.Instruction) {
+			var ops []*ssa.Value
+			for _, op := range in.Operands(ops) {
+				if g, ok := (*op).(*ssa.Global); ok && g.Pkg == fn.Pkg {
+					globalsRead = append(globalsRead, g.Name())
+				}
+			}
+		})
+	}
+	if len(globalsRead) > 0 {
+		okPure = false
+		r.Bad("R17.6", "util.CompileGlobs#package-state", pos, "the translation reads or writes package-level state (%s): the match set of one pattern list can depend on earlier calls", strings.Join(globalsRead, ", "))
+	}
+	if okPure {
+		r.OK("R17.6", "util.CompileGlobs#pure", pos, "every successful return is regexp.Compile of the pattern built in this call; no package-level state is touched")
 	}
 
 	// ---- R17.5 callers
